@@ -166,12 +166,12 @@ HARNESSES = [
             quick=dict(timeout=170, shards=shards(template=['T1', 'T2', 'T4', 'T6', 'T10'], tail=[2])),
             thorough=dict(timeout=1500, shards=shards(template=['T1', 'T2', 'T3', 'T4', 'T5', 'T6', 'T10'], tail=[2, 4]))),
     Harness('failed_exit', _failed_exit,
-            decides='a transaction that left two-phase commit through a failure (tpc_finish callback raising) is absent in full: none '
+            decides='a transaction that left two-phase commit through a failure (tpc_finish callback raising; I/O error at a solver-chosen operation of tpc_abort) is absent in full: none '
                     'of its records appear in the following transactions, also after reopen (same harness as C05 fault_late)',
-            symbolic='-', bounds='template T1; the failed transaction has 3 records', oracle='RevStore battery',
+            symbolic='f = index of the failing operation of tpc_abort', bounds='template T1; the failed transaction has 3 records; no reads between the failure and the following commits (reader buffers: C05)', oracle='RevStore battery',
             code=['BaseStorage.tpc_begin (_clear_temp)', 'FileStorage.tpc_finish'],
-            quick=dict(timeout=60, shards=shards(template=['T1'], where=['finish_cb'])),
-            thorough=dict(timeout=60, shards=shards(template=['T1', 'T4'], where=['finish_cb']))),
+            quick=dict(timeout=60, shards=shards(template=['T1'], where=['finish_cb', 'abort'], probe=[False])),
+            thorough=dict(timeout=60, shards=shards(template=['T1', 'T4'], where=['finish_cb', 'abort'], probe=[False]))),
 ]
 
 MANIFEST = dict(
